@@ -22,7 +22,9 @@ Inductive content :=
 | CMath (body : list content)                        (* $ ... $ *)
 | CDecl (c : Z) (body : list content)                (* a declaration (\bfseries ...) and everything after it in its container *)
 | CTable (ak : Z) (cols : list colstyle) (rows : list (list (list content)))   (* rows of cells of contents *)
-| CList (lk : Z) (items : list (option (list Z) * list content)).              (* items: optional term, contents *)
+| CList (lk : Z) (pre : list bool) (items : list (option (list Z) * list content)).
+    (* pre: blank material written between \begin{..} and the first \item (true = a \par / blank line, false = a blank);
+       items: optional term, contents *)
 
 (* a leaf may be anything that is not a structural token of the stream *)
 Definition plain_kind (k : kind) : bool :=
@@ -54,9 +56,10 @@ Fixpoint print (d : Z) (c : content) : stream :=
                             :: join [leaf KAmp (d + 2)]
                                  (map (fun cell => leaf KCell (d + 2) :: flat_map (print (d + 2)) cell) row)) rows)
       ++ [leaf (KEnd (EArr ak)) d]
-  | CList lk items =>
+  | CList lk pre items =>
       leaf (KBegin (EList lk) []) (d + 1)
-      :: flat_map (fun it => match it with (t, b) => leaf (KItem t) (d + 1) :: flat_map (print (d + 1)) b end) items
+      :: map (fun b : bool => leaf (if b then KPar else KSpace) (d + 1)) pre
+      ++ flat_map (fun it => match it with (t, b) => leaf (KItem t) (d + 1) :: flat_map (print (d + 1)) b end) items
       ++ [leaf (KEnd (EList lk)) d]
   end.
 
@@ -70,7 +73,7 @@ Fixpoint tree_of (d : Z) (c : content) : tree :=
   | CTable ak cols rows =>
       T (KBegin (EArr ak) cols) (d + 2)
         (map (fun row => T KRow (d + 2) (map (fun cell => T KCell (d + 2) (map (tree_of (d + 2)) cell)) row)) rows)
-  | CList lk items =>
+  | CList lk _ items =>
       T (KBegin (EList lk) []) (d + 1)
         (map (fun it => match it with (t, b) => T (KItem t) (d + 1) (map (tree_of (d + 1)) b) end) items)
   end.
@@ -104,7 +107,7 @@ Fixpoint wf (c : content) : bool :=
       negb (match rows with [] => true | _ => false end)
       && forallb (fun row => negb (match row with [] => true | _ => false end)
                              && forallb (fun cell => decl_last cell && forallb wf cell) row) rows
-  | CList lk items =>
+  | CList lk _ items =>
       forallb (fun it => match it with (t, b) => starts_nonblank b && no_decl b && forallb wf b end) items
   end.
 
